@@ -32,6 +32,8 @@ struct Packet {
 pub struct NetSim {
     pub progress: bool,
     rt: tokio::runtime::Runtime,
+    /// a stall was found: stop generating further (expensive, equally stalling) cases
+    stalled: std::cell::Cell<bool>,
 }
 
 struct Cluster {
@@ -46,6 +48,9 @@ struct Cluster {
     /// every certificate the adversary has seen (from honest messages), for lying timeout votes
     seen_qcs: Vec<ACqc>,
     fresh: u64,
+    /// steps are run on the real replicas and monitored, but not compared with the model (slow-storage episodes:
+    /// the model has no notion of a handler waiting for the disk)
+    unmodelled: bool,
 }
 
 fn sel() -> validator::LeaderSelection {
@@ -54,7 +59,7 @@ fn sel() -> validator::LeaderSelection {
 
 impl NetSim {
     pub fn new(progress: bool) -> Self {
-        Self { progress, rt: tokio::runtime::Builder::new_current_thread().enable_all().build().unwrap() }
+        Self { progress, rt: tokio::runtime::Builder::new_current_thread().enable_all().build().unwrap(), stalled: std::cell::Cell::new(false) }
     }
 }
 
@@ -174,12 +179,20 @@ impl NetSim {
             self.rt.block_on(rig.step_tick(None))
         } else if kind == "restart" {
             let rig = c.rigs.get_mut(&rid).unwrap();
-            self.rt.block_on(rig.start(&c.w));
+            if c.unmodelled {
+                self.rt.block_on(rig.restart_full(&c.w));
+            } else {
+                self.rt.block_on(rig.start(&c.w));
+            }
             let mon = c.mons.get_mut(&rid).unwrap();
             mon.last_hcqc = None;
             mon.last_htqc = None;
             let snap = sum_snapshot(&mut c.w, &c.rigs[&rid].snapshot());
-            out.emit(op, json!({"class":"restarted","snap":snap}));
+            if c.unmodelled {
+                out.emit(op, json!({"_class":"restarted","_unmodelled":true}));
+            } else {
+                out.emit(op, json!({"class":"restarted","snap":snap}));
+            }
             return;
         } else {
             let from = op["from"].as_u64().unwrap() as usize;
@@ -245,11 +258,15 @@ impl NetSim {
             }
         }
         if c.rigs[&rid].dead {
-            // blocked on a missing block: the node restarts; block sync brings the missing blocks
+            // blocked on a missing block (or on a slow disk): the node restarts; block sync brings the missing blocks
             c.sync_blocks(rid);
             settle(&self.rt);
             let rig = c.rigs.get_mut(&rid).unwrap();
-            self.rt.block_on(rig.start(&c.w));
+            if c.unmodelled {
+                self.rt.block_on(rig.restart_full(&c.w));
+            } else {
+                self.rt.block_on(rig.start(&c.w));
+            }
             let mon = c.mons.get_mut(&rid).unwrap();
             mon.last_hcqc = None;
             mon.last_htqc = None;
@@ -261,7 +278,11 @@ impl NetSim {
             self_monitors(mon, &c.w, &c.rigs[&rid], &obs.events, &snap, &op, out);
         }
         let snapj = sum_snapshot(&mut c.w, &snap);
-        out.emit(op.clone(), json!({"class": class, "_why": why, "effects": effects, "snap": snapj}));
+        if c.unmodelled {
+            out.emit(op.clone(), json!({"_class": class, "_unmodelled": true}));
+        } else {
+            out.emit(op.clone(), json!({"class": class, "_why": why, "effects": effects, "snap": snapj}));
+        }
         self.check_agreement(c, &op, out);
     }
 
@@ -324,10 +345,10 @@ impl NetSim {
                 let sm = sum_msg(&mut c.w, &m);
                 let a = c.abs_msg(&m);
                 c.broadcast(rid, true, a);
-                out.emit(op, json!({"class":"proposal","msg":sm}));
+                if c.unmodelled { out.emit(op, json!({"_class":"proposal","_unmodelled":true})); } else { out.emit(op, json!({"class":"proposal","msg":sm})); }
             }
             _ => {
-                out.emit(op, json!({"class":"waiting"}));
+                if c.unmodelled { out.emit(op, json!({"_class":"waiting","_unmodelled":true})); } else { out.emit(op, json!({"class":"waiting"})); }
             }
         }
     }
@@ -442,7 +463,7 @@ impl NetSim {
         }
         let wseed = rng.gen_range(0..100000u64);
         let w = World::new(wseed, &weights, &vec![true; n], sel(), 0);
-        let mut c = Cluster { w, weights: weights.clone(), byz: byz.clone(), rigs: BTreeMap::new(), mons: BTreeMap::new(), pool: vec![], proposals: VecDeque::new(), seen_qcs: vec![], fresh: 0 };
+        let mut c = Cluster { w, weights: weights.clone(), byz: byz.clone(), rigs: BTreeMap::new(), mons: BTreeMap::new(), pool: vec![], proposals: VecDeque::new(), seen_qcs: vec![], fresh: 0, unmodelled: false };
         for i in c.correct() {
             let rig = self.rt.block_on(Rig::new(&c.w, i));
             c.rigs.insert(i, rig);
@@ -499,12 +520,50 @@ impl NetSim {
         if !self.progress {
             return;
         }
+        // ---- slow-storage episode (every other case): for a while nothing the storage is given becomes durable; the
+        // network is fair meanwhile, so blocks get certified; a replica stuck waiting for its disk is killed; then every
+        // node process crashes (what was not durable is lost) and the disks recover. From here on the case is run and
+        // monitored on the real replicas only (the model has no notion of a handler waiting for the disk).
+        if rng.gen_bool(0.5) {
+            c.unmodelled = true;
+            out.count("slow_storage_episode");
+            for rig in c.rigs.values() {
+                *rig.engine.0.auto_persist.lock().unwrap() = false;
+            }
+            c.pool.clear();
+            c.proposals.clear();
+            for _round in 0..2 {
+                for i in &correct {
+                    self.step(&mut c, *i, json!({"op":"tick"}), out);
+                }
+                let mut guard = 0;
+                while (!c.pool.is_empty() || !c.proposals.is_empty()) && guard < 500 {
+                    guard += 1;
+                    if !c.proposals.is_empty() {
+                        self.propose(&mut c, out);
+                        continue;
+                    }
+                    let p = c.pool.remove(0);
+                    if c.byz.contains(&p.from) {
+                        continue;
+                    }
+                    self.step(&mut c, p.to, json!({"op":"msg","from":p.from,"sig_ok":p.sig_ok,"msg":p.msg}), out);
+                }
+            }
+            // every node process dies; the disks recover
+            for i in &correct {
+                self.step(&mut c, *i, json!({"op":"restart"}), out);
+            }
+            for rig in c.rigs.values() {
+                *rig.engine.0.auto_persist.lock().unwrap() = true;
+            }
+        }
         // ---- C06: fair synchronous suffix. Byzantine validators are silent, nothing is lost, timers fire when idle.
         let before = heads_before(&c);
         c.pool.clear();
         c.proposals.clear();
         let mut rounds = 0;
-        let max_rounds = 6 * n + 12;
+        let max_rounds = n + 8;
         let target_reached = |c: &Cluster, before: &Vec<u64>| c.rigs.values().zip(before.iter()).all(|(r, b)| r.engine.persisted_next() > *b);
         while rounds < max_rounds && !target_reached(&c, &before) {
             rounds += 1;
@@ -537,6 +596,7 @@ impl NetSim {
         out.count(&format!("progress_rounds={}", rounds.min(20)));
         if !target_reached(&c, &before) {
             let views: Vec<u64> = c.rigs.values().map(|r| r.snapshot().view.0).collect();
+            self.stalled.set(true);
             out.oracle_fail("no_progress", &format!("after the network healed, {max_rounds} synchronous rounds (timers firing, every message delivered, blocks fetchable) did not make every correct replica commit a new block; views {views:?}, byzantine {:?}", c.byz), json!({"weights": weights, "byz": byz, "wseed": wseed}));
         }
     }
@@ -555,6 +615,9 @@ impl Prop for NetSim {
         let cases = (opts.n / 150).max(2);
         for _ in 0..cases {
             self.run_case(&mut rng, 150, out);
+            if self.stalled.get() {
+                break;
+            }
         }
         true
     }
